@@ -64,7 +64,7 @@ def check_case(case):
 
     def v(key, what, **kw):
         out.append({"key": key, "what": what, "case": dict(case, **kw)})
-    o = SP(seq)
+    o = core.sp(seq)
     getters = [("NCPR", o.get_linear_NCPR), ("FCR", o.get_linear_FCR), ("sigma", o.get_linear_sigma),
                ("hydropathy", o.get_linear_hydropathy)]
     whole = {"NCPR": o.get_NCPR(), "FCR": o.get_FCR(), "hydropathy": o.get_uversky_hydropathy()}
